@@ -8,17 +8,17 @@ static CUR: AtomicUsize = AtomicUsize::new(0);
 static PEAK: AtomicUsize = AtomicUsize::new(0);
 static BIGGEST: AtomicUsize = AtomicUsize::new(0);
 /// Requests above this are refused (null), which aborts the process: the driver sees the child die.
-const REFUSE: usize = 12 << 30;
+const REFUSE: usize = 1 << 30;
 
 unsafe impl GlobalAlloc for Counting {
     unsafe fn alloc(&self, l: Layout) -> *mut u8 {
         note(l.size());
-        if l.size() > REFUSE { return std::ptr::null_mut(); }
+        if l.size() > REFUSE { refused(l.size()); return std::ptr::null_mut(); }
         System.alloc(l)
     }
     unsafe fn alloc_zeroed(&self, l: Layout) -> *mut u8 {
         note(l.size());
-        if l.size() > REFUSE { return std::ptr::null_mut(); }
+        if l.size() > REFUSE { refused(l.size()); return std::ptr::null_mut(); }
         System.alloc_zeroed(l)
     }
     unsafe fn dealloc(&self, p: *mut u8, l: Layout) {
@@ -27,9 +27,15 @@ unsafe impl GlobalAlloc for Counting {
     }
     unsafe fn realloc(&self, p: *mut u8, l: Layout, new: usize) -> *mut u8 {
         if new > l.size() { note(new - l.size()); BIGGEST.fetch_max(new, Relaxed); } else { CUR.fetch_sub(l.size() - new, Relaxed); }
-        if new > REFUSE { return std::ptr::null_mut(); }
+        if new > REFUSE { refused(new); return std::ptr::null_mut(); }
         System.realloc(p, l, new)
     }
+}
+fn refused(n: usize) {
+    // no allocation here: write a fixed marker so the driver can tell this abort from others
+    let msg = b"VH-ALLOC-REFUSED\n";
+    unsafe { libc::write(2, msg.as_ptr() as *const libc::c_void, msg.len()) };
+    let _ = n;
 }
 fn note(n: usize) {
     let c = CUR.fetch_add(n, Relaxed) + n;
